@@ -353,6 +353,15 @@ impl Part for Programs {
     }
 }
 
+/// Entry point of the libFuzzer target `pbt_c05` (fuzz/fuzz_targets/pbt_c05.rs includes this file as a module).
+#[allow(dead_code)]
+pub fn fuzz_one(data: &[u8]) -> Vec<Failure> {
+    thread_local! {
+        static S: (BoxedStrategy<Case>, std::collections::HashSet<String>) = (Programs.strategy(Tier::Thorough), open_known_sigs_of("C05"));
+    }
+    S.with(|(st, known)| kvh::engine::fuzz_one(&Programs, st, data, known))
+}
+
 fn main() {
     let mut s = Session::start(
         "C05",
@@ -368,5 +377,7 @@ fn main() {
     s.assume("for the generated negation class (heads of negated rules occur in no rule body, no variable predicates) the stratified model equals: least model of the positive rules, then one application of the negated rules");
     s.assume("negation is only compared on infer_new_facts_with_provenance: the other strategies document no negation support");
     s.run(&Programs);
+    // coverage-guided search over the same strategy and oracle (libFuzzer drives the random stream): thorough tier
+    s.fuzz_campaign(&Programs, "libfuzzer:programs", "pbt_c05", 40_000, 8, 8192);
     std::process::exit(s.finish());
 }
